@@ -387,40 +387,74 @@ class Ctx:
                 os.remove(p)
         return out
 
-    def validate_events(self, model, trace, label=None, cfg=None, timeout=3600, count=True):
-        """Validates an event file produced by replay workers against spec/<model>.tla."""
+    def validate_events(self, model, trace, label=None, cfg=None, timeout=3600, count=True, parallel=1):
+        """Validates an event file produced by replay workers against spec/<model>.tla.  With parallel > 1 the events
+        (which must be independent of each other) are split into that many chunks validated by concurrent TLC runs."""
         label = label or model
-        nlines = sum(1 for _ in open(trace))
+        with open(trace) as f:
+            lines = f.readlines()
+        nlines = len(lines)
         if nlines == 0:
             raise ToolError("no events to validate for %s" % label)
-        ok, msg, res = self.trace_check(model, trace, cfg=cfg, label=label, timeout=timeout)
-        if ok:
-            if not any("ACCEPTED" in p for p in res["prints"]):
-                raise ToolError("trace %s: TLC finished without evaluating the acceptance condition" % label)
-            with open(trace) as f:
-                first = f.readline()
-            ev = json.loads(first)
-            self.samples.append({"run": label, "event": {k: v for k, v in ev.items() if k != "text"}})
+        parallel = max(1, min(parallel, nlines // 4 or 1))
+        chunks = []           # (path, offset)
+        if parallel == 1:
+            chunks.append((trace, 0))
+        else:
+            per = (nlines + parallel - 1) // parallel
+            for c in range(parallel):
+                part = lines[c * per:(c + 1) * per]
+                if not part:
+                    continue
+                cp = "%s.part%d" % (trace, c)
+                with open(cp, "w") as f:
+                    f.writelines(part)
+                chunks.append((cp, c * per))
+        import concurrent.futures
+        results = []
+        with concurrent.futures.ThreadPoolExecutor(max_workers=len(chunks)) as ex:
+            futs = [ex.submit(self.trace_check, model, cp, cfg, "%s.%d" % (label, i), timeout, "4g" if len(chunks) > 1 else "8g")
+                    for i, (cp, _) in enumerate(chunks)]
+            for fu in futs:
+                results.append(fu.result())
+        all_ok = True
+        ats, total, first_msg = [], 0, ""
+        for (cp, off), (ok, msg, res) in zip(chunks, results):
+            if ok:
+                if not any("ACCEPTED" in p for p in res["prints"]):
+                    raise ToolError("trace %s: TLC finished without evaluating the acceptance condition" % label)
+                continue
+            all_ok = False
+            first_msg = first_msg or msg
+            text = "\n".join(res["prints"])
+            found = re.findall(r'<<"REJECTED", (\d+)(?:, (.*))?>>', text)
+            explain = getattr(self.mod, "explain", None)
+            ats.extend((int(i) + off, (explain(why) if explain and why else (why or ""))[:1500]) for i, why in found)
+            cnt = re.search(r'"REJECTED-COUNT", (\d+)', msg + " " + text)
+            total += int(cnt.group(1)) if cnt else len(found)
+            if not found and not cnt:
+                total += 1
+        if parallel > 1:
+            for cp, _ in chunks:
+                try:
+                    os.remove(cp)
+                except OSError:
+                    pass
+        if all_ok:
+            ev = json.loads(lines[0])
+            self.samples.append({"run": label, "event": {k: (v if len(json.dumps(v)) < 2000 else "(%d bytes of JSON)" % len(json.dumps(v))) for k, v in ev.items() if k != "text"}})
             return True
-        ats = [int(x) for x in re.findall(r'<<"REJECTED", (\d+)', "\n".join(res["prints"]))]
-        wanted = set(ats)
-        evs = {}
-        if wanted:
-            with open(trace) as f:
-                for i, line in enumerate(f, start=1):
-                    if i in wanted:
-                        evs[i] = json.loads(line)
-        cnt = re.search(r'"REJECTED-COUNT", (\d+)', msg + " ".join(res["prints"]))
-        total = int(cnt.group(1)) if cnt else len(ats)
         self.traces_ok -= total if count else 0
         if not ats:
             self.add_failure({"family": "trace", "case": {"model": model, "seed": self.seed, "tier": self.tier},
-                              "detail": {"kind": "trace-rejected", "what": model, "event": None, "tlc": msg[:600]}})
-        for at in ats:
+                              "detail": {"kind": "trace-rejected", "what": model, "event": None, "tlc": first_msg[:600]}})
+        for at, why in ats[:12]:
+            ev = json.loads(lines[at - 1])
+            ev = {k: (v if len(json.dumps(v)) < 4000 else "(%d bytes of JSON)" % len(json.dumps(v))) for k, v in ev.items()}
             self.add_failure({"family": "trace", "case": {"model": model, "seed": self.seed, "tier": self.tier, "event_index": at},
-                              "detail": {"kind": "trace-rejected", "what": model, "event": evs.get(at)}})
-        if total > len(ats):
-            self.failures.append(("(%d further rejected events of %s not itemised)" % (total - len(ats), label), None))
+                              "detail": {"kind": "trace-rejected", "what": model, "reason": why, "event": ev}})
+        if total > min(len(ats), 12):
+            self.failures.append(("(%d further rejected events of %s not itemised)" % (total - min(len(ats), 12), label), None))
         return False
 
     def record_and_validate(self, family, model, args=(), label=None, cfg=None, count_key=None, timeout=3600):
